@@ -46,6 +46,8 @@ class StrEval:
         if k == 'member' and n.field and n.decl in self.env: return self.env[n.decl]
         if k == 'member' and n.field and ('field:' + n.name) in self.env: return self.env['field:' + n.name]
         if k == 'cast': return self.s(n.n('sub'))
+        if k in ('paren', 'materialize', 'bindtemp') and n.n('sub') is not None: return self.s(n.n('sub'))
+        if k == 'cond': return self.s(n.n('t')) if self.b(n.n('c')) else self.s(n.n('f'))
         if k == 'construct' and len([a for a in n.ns('args') if a is not None]) >= 1:
             return self.s([a for a in n.ns('args') if a is not None][0])
         if k == 'call':
@@ -127,6 +129,8 @@ class StrEval:
     def b(self, n):
         k = n.k
         if k == 'bool': return bool(n.v)
+        if k == 'cond': return self.b(n.n('t')) if self.b(n.n('c')) else self.b(n.n('f'))
+        if k == 'paren' and n.n('sub') is not None: return self.b(n.n('sub'))
         if k == 'unop' and n.op == '!': return not self.b(n.n('sub'))
         if k == 'cast': return self.b(n.n('sub'))
         if k == 'binop':
